@@ -1702,6 +1702,12 @@ class H2Connection:
             # So we just reset the new stream.
             return self._refuse_pushed_stream(frame), events
 
+        # Promised streams are not subject to the concurrency check, which is
+        # where closed streams normally get dropped from the stream table. Do
+        # that here, or a peer that keeps promising and resetting streams
+        # makes the table grow without bound.
+        self._open_streams(0)
+
         new_stream = self._begin_new_stream(
             frame.promised_stream_id, AllowedStreamIDs.EVEN
         )
